@@ -10,7 +10,6 @@ import (
 	"golang.org/x/tools/go/ssa"
 )
 
-
 func (x *Exec) lockOp(st *State, recv Value, op string, in ssa.Instruction) {
 	p, ok := recv.(VPtr)
 	if !ok || p.Obj == nil || p.Obj.Kind != "mutex" {
